@@ -67,7 +67,7 @@ def build(case):
     astar = np.sqrt(np.diag(Gs))
     M = Model()
     M.g, M.cell, M.G, M.Gs = g, cell, G, Gs
-    al = GR.aliases(no, ch)
+    al = [a for a in GR.aliases(no, ch) if ch != "rhombohedral" or a.lower().endswith("r")]
     name = al[case["op"] % len(al)] if case["op"] % 3 == 0 else g.name
     if case["upper"]:
         name = name.upper()
